@@ -3,6 +3,7 @@
 package main
 
 import (
+	"encoding/base64"
 	"fmt"
 	"strings"
 
@@ -48,6 +49,39 @@ func runC02TemporalValues(c *Ctx) {
 			ok = isStr && canon(string(s)) == canon(text)
 		}
 		c.Law(ok, "C02/value", "elements come in document order with the JSON values (strings exactly, numbers numerically, dates and times as the same instant, precision and offset)", what+".value of "+text, got)
+	}
+	// years far from the epoch (value_us is an int64 count of microseconds: 0001..9999 all fit)
+	for _, y := range []int{1, 99, 1000, 1500, 1600, 1677, 1678, 1899, 2261, 2262, 2263, 2300, 5000, 9999} {
+		for _, md := range []string{"01-01", "02-28", "06-15", "12-31"} {
+			d := fmt.Sprintf("%04d-%s", y, md)
+			check(readD, `{"resourceType":"Patient","birthDate":"`+d+`"}`, d, "date")
+			check(readD, `{"resourceType":"Patient","birthDate":"`+d[:7]+`"}`, d[:7], "date")
+			check(readD, `{"resourceType":"Patient","birthDate":"`+d[:4]+`"}`, d[:4], "date")
+			for _, z := range []string{"Z", "+05:30", "-08:00"} {
+				if (y == 1 && md == "01-01") || (y == 9999 && md == "12-31") {
+					continue // the offset would move the instant out of the representable years
+				}
+				dt := d + "T23:59:59" + z
+				check(readDT, `{"resourceType":"Observation","status":"final","code":{"text":"c"},"effectiveDateTime":"`+dt+`"}`, dt, "dateTime")
+				check(readI, `{"resourceType":"Observation","status":"final","code":{"text":"c"},"issued":"`+dt+`"}`, dt, "instant")
+			}
+		}
+	}
+	// base64Binary: the value is the element's JSON text (standard alphabet, padded) for every byte pattern
+	{
+		readB := fhirpath.MustCompile("Patient.photo.data.value")
+		payloads := [][]byte{{0xFB, 0xFF}, {0xFF}, {0xFF, 0xD8, 0xFF, 0xE0, 0x3E, 0x3E}, {0x00}, {0x3E}, {0x3F}, {0xFA, 0xFB, 0xFC, 0xFD, 0xFE, 0xFF}, []byte("hello world"), {0xF8}, {0xFC, 0x00}}
+		for i := 0; i < 40; i++ {
+			b := make([]byte, 1+c.rng.Intn(9))
+			for k := range b {
+				b[k] = byte(c.rng.Intn(256))
+			}
+			payloads = append(payloads, b)
+		}
+		for _, b := range payloads {
+			txt := base64.StdEncoding.EncodeToString(b)
+			check(readB, `{"resourceType":"Patient","photo":[{"data":"`+txt+`"}]}`, txt, "base64Binary")
+		}
 	}
 	for i := 0; i < n; i++ {
 		h, m, s := c.rng.Intn(24), c.rng.Intn(60), c.rng.Intn(60)
